@@ -61,13 +61,14 @@ theorem tracesDiffer_spec {P : Prog} {G : Nat → Val} {X : Oracle} {fuel g : Na
 def bytesNat (l : List Val) : Nat :=
   l.foldl (fun n v => match v with | .int b => n * 256 + b.toNat | _ => n) 0
 
-/-- external world for the witnesses: `big.Int.SetBytes` is exact, everything else returns zeros of
-    the declared arity (the leaked arguments are in the trace before the result is used) -/
+/-- external world for the witnesses: `big.Int.SetBytes` is exact, `big.Int.Bytes` returns the empty
+    encoding, everything else zeros of the declared arity (the leaked arguments are in the trace before the result is used) -/
 def bigX : Oracle := fun name args =>
   if name = x_big_Int_SetBytes then
     match args with
     | [.arr b] => [.int (Int.ofNat (bytesNat b))]
     | _ => [.int 0]
+  else if name = x_big_Int_Bytes then [.arr []]
   else (sigs.ext.getD name []).map (fun _ => .int 0)
 
 def scalarZero : Val := .arr [.arr [.int 0, .int 0, .int 0, .int 0]]
@@ -93,10 +94,5 @@ theorem witness_GetAffineX_Unsafe :
 theorem witness_Bytes_Unsafe :
     tracesDiffer (slice prog f_internal_SM2Point_Bytes_Unsafe) globals bigX 100000
       f_internal_SM2Point_Bytes_Unsafe [pointA] [pointB] = true := by decide +kernel
-
-/-- the same pairs leak the same trace through the constant-time variants -/
-theorem same_GetAffineX :
-    tracesDiffer (slice prog f_internal_SM2Point_GetAffineX) globals bigX 100000
-      f_internal_SM2Point_GetAffineX [pointA] [pointB] = false := by decide +kernel
 
 end SMGo.Proofs.CTIRCheck
